@@ -519,6 +519,7 @@ def check(ctx):
         from . import common as _common
         _common.check_frame(f, rep, 'C01-R0')
         _common.check_derives(f, rep, 'C01-R0')
+        _common.check_state_fields(f, rep, 'C01-R0', ('members',))
         r1_precedence(ctx, f, rep)
         r2_change_state(ctx, f, rep)
         r3_writers(ctx, f, rep)
